@@ -763,7 +763,11 @@ func judgeRelay(r *vlib.Run, w *worker, name string, s *relayState, full []strin
 			continue
 		}
 		seen[p[0]] = true
-		r.Violate(p[0], "impl-oracle", fmt.Sprintf("%s [%s]: %s", name, strings.Join(full, "; "), p[1]), c)
+		kind := "impl-oracle"
+		if strings.HasPrefix(p[0], "hook-") {
+			kind = "correspondence" // the tie itself failed, not the property
+		}
+		r.Violate(p[0], kind, fmt.Sprintf("%s [%s]: %s", name, strings.Join(full, "; "), p[1]), c)
 	}
 	if !strings.HasPrefix(rep, "ok ") {
 		r.Violate("relay-trace-not-a-model-run", "correspondence",
